@@ -60,7 +60,8 @@ class ModInfoconverter:
             # Compose and verify modifier, record if we failed to do so
             try:
                 handler = handler_map[mod_func]
-            except KeyError:
+            # Unhashable function name (e.g. list) raises TypeError
+            except (KeyError, TypeError):
                 fails += 1
             else:
                 try:
